@@ -1,7 +1,7 @@
 #!/bin/bash
 # usage: tools/seedtest.sh <patch.diff> <prop> [<prop>...]   — apply a seeded change to /repo, run the quick checks, undo it
 set -u
-patch="$1"; shift
+patch="$(realpath "$1")"; shift
 cd /repo || exit 2
 git apply "$patch" || { echo "patch does not apply"; exit 2; }
 cd /verif
